@@ -9,9 +9,17 @@ static int prio(uint8_t s) { return s == 1 ? 3 : s == 2 ? 2 : s == 3 ? 1 : 0; }
 void fsv_harness(void)
 {
   uint8_t out[ROWS * COLS], want[ROWS * COLS];
+#ifdef CL  /* concrete border statuses per query (exhaustive enumeration through the encoder) */
   FSV_IN_U8(in_b, 4, 0, 3);
+  in_b[0] = CL; in_b[1] = CR; in_b[2] = CT; in_b[3] = CB;
+#else
+  FSV_IN_U8(in_b, 4, 0, 3);
+#endif
 #if OVERRIDE
   FSV_IN_U64(in_ov, 2, 0, 4); FSV_IN_U8(in_os, 1, 0, 3);
+#ifdef COR
+  in_ov[0] = COR; in_ov[1] = COC; in_os[0] = COS;
+#endif
 #endif
   uint8_t l = in_b[0], r = in_b[1], t = in_b[2], b = in_b[3];
   int bad = ((l == 3) != (r == 3)) || ((t == 3) != (b == 3));
